@@ -53,7 +53,7 @@ def gen_case(rng, ctx):
         return {"ds": ds, "scheme": sch, "dcls": "large", "scls": scls, "n": n,
                 "cands": [gen.large_candidate(rng, base)[1] for _ in range(2)]}
     big = rng.random() < 0.04 and "C" not in ctx.mode
-    cls, ds = gen.dataset(rng, classes="D1 D2 D3 D3 D4 D5 D6 D7 D7 D9 D21", nmax=40 if big else (7 if "C" in ctx.mode else 12),
+    cls, ds = gen.dataset(rng, classes="D1 D2 D3 D3 D4 D5 D6 D7 D7 D9 D21 D14", nmax=40 if big else (7 if "C" in ctx.mode else 12),
                           mmax=8)
     ds = libx.normalise_raw(ds)
     scls, sch = gen.scheme(rng, "S1 S2 S3 S3 S3 S4 S6 S7")
